@@ -128,6 +128,13 @@ func (p *swInner) Revoke(s *sessions.SessionState) error {
 	}
 	return nil
 }
+func (p *swInner) Redeem(redirectURL, code string) (*sessions.SessionState, error) {
+	p.gate.enter()
+	if p.deny {
+		return nil, errors.New("invalid_grant")
+	}
+	return &sessions.SessionState{Email: "user-of-" + code, AccessToken: "at-" + code, RefreshToken: "rt-" + code}, nil
+}
 func (p *swInner) RefreshAccessToken(rt string) (string, time.Duration, error) {
 	p.gate.enter()
 	if p.deny {
@@ -161,6 +168,15 @@ func swRun(cs swCase) M {
 				r.ParseForm()
 				w.WriteHeader(201)
 				fmt.Fprintf(w, `{"access_token":%q,"expires_in":3600}`, "new-"+r.Form.Get("refresh_token"))
+			case strings.HasSuffix(r.URL.Path, "/redeem"):
+				gate.enter()
+				if cs.Deny {
+					w.WriteHeader(400)
+					return
+				}
+				r.ParseForm()
+				code := r.Form.Get("code")
+				fmt.Fprintf(w, `{"access_token":%q,"refresh_token":%q,"expires_in":3600,"email":%q}`, "at-"+code, "rt-"+code, "user-of-"+code)
 			case strings.HasSuffix(r.URL.Path, "/profile"):
 				if cs.Callers[0].Method == "usergroups" {
 					gate.enter()
@@ -188,6 +204,12 @@ func swRun(cs swCase) M {
 			case "refresh":
 				ok, err := sfp.RefreshSession(s, append([]string{}, c.Groups...))
 				return M{"ok": ok, "err": err != nil}
+			case "redeem":
+				rs, err := sfp.Redeem("https://app.x.io/oauth2/callback", c.Access)
+				if err != nil || rs == nil {
+					return M{"ok": false, "err": true, "email": "", "errText": fmt.Sprint(err)}
+				}
+				return M{"ok": true, "err": false, "email": rs.Email, "token": rs.AccessToken}
 			default:
 				gs, err := sfp.UserGroups(c.Email, append([]string{}, c.Groups...), c.Access)
 				if gs == nil {
@@ -218,6 +240,12 @@ func swRun(cs swCase) M {
 			case "revoke":
 				err := sfp.Revoke(s)
 				return M{"ok": err == nil, "err": err != nil}
+			case "redeem":
+				rs, err := sfp.Redeem("https://sso-auth.x.io/google/callback", c.Access)
+				if err != nil || rs == nil {
+					return M{"ok": false, "err": true, "email": ""}
+				}
+				return M{"ok": true, "err": false, "email": rs.Email, "token": rs.AccessToken}
 			default:
 				at, d, err := sfp.RefreshAccessToken(c.Refresh)
 				return M{"ok": err == nil, "err": err != nil, "token": at, "ttl": int64(d / time.Second)}
@@ -334,6 +362,13 @@ func init() {
 			{"auth", []swCaller{C("membership", "tokA", "", "a@x.io", "g2", "g1"), C("membership", "tokZ", "", "a@x.io", "g1", "g2"), C("membership", "tokA", "", "a@x.io", "g1")}, false},
 			{"auth", []swCaller{C("revoke", "tokA", "rA", ""), C("validate", "tokA", "rA", ""), C("revoke", "tokA", "rA", ""), C("validate", "tokA", "rA", "")}, false},
 			{"auth", []swCaller{C("refreshToken", "", "rA", ""), C("refreshToken", "", "rA", ""), C("refreshToken", "", "rB", "")}, true},
+			// two logins overlap at the token call: each code is redeemed on its own (redemption is not coalesced)
+			{"auth", []swCaller{C("redeem", "codeA", "", ""), C("redeem", "codeB", "", ""), C("redeem", "codeA", "", "")}, false},
+			{"proxy", []swCaller{C("redeem", "codeA", "", ""), C("redeem", "codeB", "", ""), C("redeem", "codeA", "", "")}, false},
+			{"proxy", []swCaller{C("redeem", "codeA", "", ""), C("redeem", "bogus", "", "")}, true},
+			// two browsers of one user, different tokens, revalidating at the same time: each token is asked about
+			{"proxy", []swCaller{C("validate", "tokA", "rA", "a@x.io", "g1"), C("validate", "tokB", "rB", "a@x.io", "g1")}, false},
+			{"auth", []swCaller{C("validate", "tokA", "rA", "a@x.io"), C("validate", "tokB", "rB", "a@x.io")}, false},
 			// two devices of one user sign out at the same time: each token gets its own revocation
 			{"auth", []swCaller{C("revoke", "tokA", "rA", "a@x.io"), C("revoke", "tokB", "rB", "a@x.io"), C("revoke", "tokA", "rA", "a@x.io")}, false},
 			{"auth", []swCaller{C("revoke", "tokA", "rA", "a@x.io"), C("revoke", "tokB", "rB", "a@x.io")}, true},
@@ -352,11 +387,11 @@ func init() {
 				if rng.Intn(3) == 0 {
 					methods = []string{"usergroups"}
 				} else {
-					methods = []string{"validate", "refresh"}
+					methods = []string{"validate", "refresh", "validate", "refresh", "redeem"}
 				}
 			} else {
 				cs.Side = "auth"
-				methods = []string{"validate", "refreshIfNeeded", "membership", "revoke", "refreshToken"}
+				methods = []string{"validate", "refreshIfNeeded", "membership", "revoke", "refreshToken", "redeem"}
 			}
 			nc := 2 + rng.Intn(4)
 			for i := 0; i < nc; i++ {
@@ -367,6 +402,9 @@ func init() {
 				c := swCaller{Method: methods[rng.Intn(len(methods))], Access: t, Refresh: t, Email: emails[rng.Intn(len(emails))]}
 				if rng.Intn(3) == 0 {
 					c.Refresh = toks[rng.Intn(3)]
+				}
+				if c.Method == "redeem" && c.Access == "" {
+					c.Access = "c0" // an empty code never leaves the proxy ("missing code"): not a redemption
 				}
 				c.Groups = append([]string{}, groupSets[rng.Intn(len(groupSets))]...)
 				if cs.Side == "proxy" && c.Method == "refresh" && c.Refresh == "" {
